@@ -129,8 +129,8 @@ Print Assumptions C08_extract_pure.
 (* reading is pure for what live numbers report from their leaves (fix: _thaw merges the archived
    correlations instead of assigning them): loading a document, Archive.copy, _thaw -- succeeding
    or failing, at any point of any history -- never unregisters a leaf a live number refers to,
-   never changes its label, u, df, independent, and never removes or changes a correlation it
-   knows.  Replaces the former C08_read_pure_refuted / C08_copy_pure_refuted. *)
+   never changes its label, u, df, independent, never removes or changes a correlation it
+   knows, and keeps its ensemble (the same set object, at least the same members).  Replaces the former C08_read_pure_refuted / C08_copy_pure_refuted. *)
 Theorem C08_read_pure :
   forall st o u l, load_op o = true ->
   In u (flat_map pyobj_leaf_refs (st_objs st)) -> lget (s_leaves (st_ses st)) u = Some l ->
@@ -188,16 +188,26 @@ Example C08_order_ab_ba :
   corr_of ba (1, 1) (1, 3) = Some 2 /\ corr_of ba (1, 3) (1, 1) = Some 2 /\ corr_of ba (1, 1) (1, 2) = Some 4.
 Proof. exact order_ab_ba. Qed.
 
-(* ---- (5c) ensembles: _thaw assigns the archived ensemble onto the leaf; a live leaf keeps its ensemble
-   whenever the archived record agrees with it (always, for multiple_ureal ensembles, whatever PART
-   of the ensemble the archive holds).  _partial: an ensemble that GREW after the dump (line-fit
-   x_from_y / y_from_x) is overwritten by the older record (reported; such histories are not generated) *)
-Theorem C08_thaw_keeps_ensemble_partial :
-  forall ln s s' r, thaw_leaves s ln = (s', r) -> NoDup (map fst ln) ->
-  (forall u fl l, In (u, fl) ln -> lget (s_leaves s) u = Some l -> l_ens fl = None \/ l_ens fl = l_ens l) ->
-  forall u l, lget (s_leaves s) u = Some l -> exists l', lget (s_leaves s') u = Some l' /\ l_ens l' = l_ens l.
-Proof. exact thaw_leaves_ens. Qed.
-Print Assumptions C08_thaw_keeps_ensemble_partial.
+(* ---- (5c) ensembles.  [leaf_le] (the relation of C08_read_pure / C08_thaw_keeps_session) includes the
+   ensemble since the repair (fix: _thaw extends a live node's ensemble in place): a live leaf keeps
+   its set OBJECT (members of an ensemble share it; append_real_ensemble relies on that) with at least
+   the members it had -- unconditionally; the members afterwards are exactly the old ones and the
+   archived ones, so nothing changes when the record names only members the leaf already has (every
+   document written in the session).  Replaces the former C08_thaw_keeps_ensemble_partial. *)
+Theorem C08_thaw_keeps_ensemble :
+  forall s a b s' a' r u l g c, thaw s a b = (s', a', r) ->
+  lget (s_leaves s) u = Some l -> l_ens l = Some (g, c) ->
+  exists l' c', lget (s_leaves s') u = Some l' /\ l_ens l' = Some (g, c') /\ incl c c'.
+Proof.
+  intros s a b s' a' r u l g c H Hl He. destruct (thaw_keeps _ _ _ _ _ _ H u l Hl) as (l' & G & L).
+  destruct L as (_ & _ & _ & _ & _ & L6). destruct (L6 _ _ He) as (c' & E' & I). eauto.
+Qed.
+Print Assumptions C08_thaw_keeps_ensemble.
+
+Theorem C08_ensemble_update_members :
+  forall e c x, In x (ens_union c e) <-> In x c \/ In x e.
+Proof. exact ens_union_in. Qed.
+Print Assumptions C08_ensemble_update_members.
 
 (* x1,x2,x3 one ensemble (5 dof); archive A holds x1 only, archive B holds x2,x3; reading A and B and
    Archive.copy of A in the session leave every live leaf's ensemble {x1,x2,x3} *)
@@ -208,7 +218,19 @@ Example C08_split_ensemble :
      OArchive; OAdd 1 [("x2"%string, 1%nat); ("x3"%string, 2%nat)]; OWrite 1 FXml;
      ORead 0; ORead 1; OCopy 0] in
   map (fun p => l_ens (snd p)) (s_leaves (st_ses st)) =
-  [Some [(1, 1); (1, 2); (1, 3)]; Some [(1, 1); (1, 2); (1, 3)]; Some [(1, 1); (1, 2); (1, 3)]].
+  [Some ((1, 1), [(1, 1); (1, 2); (1, 3)]); Some ((1, 1), [(1, 1); (1, 2); (1, 3)]); Some ((1, 1), [(1, 1); (1, 2); (1, 3)])].
+Proof. vm_compute. reflexivity. Qed.
+
+(* the former defect: a,b an ensemble, archived; then y joins the ensemble (a line-fit prediction);
+   reading the OLDER document keeps y in the ensemble of a, b and y, and the set is still shared:
+   a further member w appended through b reaches a and y as well *)
+Example C08_grown_ensemble_repaired :
+  let st := run (init_state 1)
+    [ODeclEnsemble [(None, 2); (None, 3)] 13; OArchive; OAdd 0 [("a"%string, 0%nat); ("b"%string, 1%nat)]; OWrite 0 FJson;
+     ODeclReal None 4 13 false; OAppendEns 0 2; ORead 0; ODeclReal None 5 13 false; OAppendEns 1 3] in
+  map (fun p => l_ens (snd p)) (s_leaves (st_ses st)) =
+  [Some ((1, 1), [(1, 1); (1, 2); (1, 3); (1, 4)]); Some ((1, 1), [(1, 1); (1, 2); (1, 3); (1, 4)]);
+   Some ((1, 1), [(1, 1); (1, 2); (1, 3); (1, 4)]); Some ((1, 1), [(1, 1); (1, 2); (1, 3); (1, 4)])].
 Proof. vm_compute. reflexivity. Qed.
 
 (* ---- (6) fresh uids.  Loading (and Archive.copy) never touches the context id or the counters;
